@@ -277,7 +277,7 @@ class C14:
                                   "2 ms into the first answer write): operational CA %s (address %d) did not answer; answers came from %r"
                                   % (cas0[1][1], nm, own[nm][1], sorted(a for (_, a) in got)), "remove_ca")
                                 break
-            elif rm is not None and rm < len(cas0) and len(cas0) >= 2 and p["req_has_addr"] and not viol:
+            elif rm is not None and rm != "app" and rm < len(cas0) and len(cas0) >= 2 and p["req_has_addr"] and not viol:
                 stk0, nm_r, ca_r, nv_r, c_r = cas0[rm]
                 removed = []
 
